@@ -174,11 +174,12 @@ def write_cfg(name, text):
 def synth_model_phase(pid, tier):
     """Leg (A): exhaustive model checking of spec/SynthMC for a small scope.  Returns list of TlcResult."""
     runs = []
-    scopes = [(3, 7, "FALSE", 3)] if tier == "quick" else [(3, 10, "FALSE", 3), (2, 9, "TRUE", 3), (3, 8, "TRUE", 1), (2, 9, "FALSE", 2)]
+    scopes = [(3, 7, "FALSE", 3)] if tier == "quick" else [(3, 8, "FALSE", 3), (2, 8, "TRUE", 3), (3, 7, "TRUE", 1), (2, 8, "FALSE", 2)]
     for (nc, depth, arp, alloc) in scopes:
         cfg = write_cfg("SynthMC_%s_%d_%d_%s_%d.cfg" % (pid, nc, depth, arp, alloc),
                         MC_CFG % {"nc": nc, "depth": depth, "arp": arp, "alloc": alloc, "emit": 0,
                                   "extra": "CONSTRAINT DepthBound\nVIEW View"})
+        # (measured: depth 7 = 17 k distinct states in 20 s, each further level about 8 times as many)
         r = vc.run_tlc("SynthMC", cfg=cfg, timeout=2400, heap="24g", tag="SynthMC-" + pid)
         r.scope = {"NC": nc, "depth": depth, "arp": arp, "alloc": alloc}
         runs.append(r)
